@@ -4,6 +4,7 @@ from __future__ import annotations
 
 import itertools
 import random
+import re
 
 from pyvc import term as tm
 from pyvc.term import INT, BOOL, STR
@@ -91,6 +92,39 @@ def bounded(ctx):
         for _ in range(3 if ctx.tier == "quick" else 8):
             pool.append("".join(rng.choice(IUPAC30) for _ in range(L)))
             pool.append("".join(rng.choice("ACGT") for _ in range(L)))
+
+    # every enzyme of Bio.Restriction ("generic classes over all enzymes"), not only the family the assembly properties speak of:
+    # asking a generic module / vector class whether a record is valid answers True or False.  (A blunt or unknown cutter is
+    # refused when the wrapper is constructed, with the ValueError the constructor documents: there is no object to ask.)
+    import Bio.Restriction as R_
+    groups = {}
+    long_text = "".join(random.Random(ctx.seed + 5).choice("ACGT") for _ in range(64))
+    for ename in sorted(R_.AllEnzymes.elements()):
+        e_ = getattr(R_, ename)
+        kind = "5'" if e_.is_5overhang() else "3'" if e_.is_3overhang() else "blunt" if e_.is_blunt() else "unknown"
+        for base_, role in ((core.Entry, "module"), (core.EntryVector, "vector")):
+            C_ = type("Generic", (base_,), dict(cutter=e_))
+            for text in ("ACGTACGTTTGACCAGT", long_text):
+                evals += 1
+                try:
+                    ent = C_(CircularRecord(Seq(text), id="r"))
+                except (ValueError, NotImplementedError):
+                    break
+                try:
+                    v = ent.is_valid()
+                    bad = None if v is True or v is False else "returned %r" % (v,)
+                except Exception as ex:
+                    bad = "raised %s.%s (%s)" % (type(ex).__module__, type(ex).__name__, re.sub(r"\d+", "#", str(ex))[:60])
+                if bad:
+                    groups.setdefault((kind, bad), []).append((ename, role))
+                    break
+        distinct.add(("all-enzymes", kind))
+    for (kind, bad), where in sorted(groups.items()):
+        names = sorted({n_ for n_, _ in where})
+        viol.append(dict(name="all_enzymes_%s_%s" % (kind.strip("'"), re.sub(r"\W+", "_", bad)[:40]),
+                         what="is_valid() of a generic %s class over a %s-overhang enzyme %s: %d enzymes, e.g. %s" % (
+                             "/".join(sorted({r_ for _, r_ in where})), kind, bad, len(names), ", ".join(names[:3])),
+                         case=dict(enzymes=names[:20], kind=kind, record="ACGTACGTTTGACCAGT")))
 
     def probe(label, cls, text):
         nonlocal evals
